@@ -51,24 +51,24 @@ CLAIMED["C10"] = dict(
     note=TRUST, ref="5/C10")
 
 CLAIMED["C05"] = dict(
-    technique="static analysis: grammar recovery from the resolved call structure of the recursive-descent levels compared with README.md's precedence list; Boolean equivalence of the prefix-rejection path condition with `i > 0`; control-dependence of extension tokens on the mode flag; abstract evaluation of look-ahead guards over a finite partition of the next character",
+    technique="static analysis: level equations of the recursive-descent parser recovered from normalised term summaries (decision tree per level; class of the searched tokens obtained by evaluating the search predicate on one representative per token kind) compared with README.md's precedence list; Boolean equivalence of the prefix-rejection condition with `i > 0`; first-decision table of the tokenizer by partial evaluation of the guards of one loop iteration over short input prefixes (mode flag, look-ahead, whitespace)",
     text="Decides: the levels search the operator classes in the README's precedence order, binary levels are right-associative and build the searched operator, prefix-operator levels recurse on the suffix and reject every non-empty prefix (no token is dropped), the terminal level accepts exactly one token and re-enters the top level for a group, every BinaryOp has exactly one level; wild-card tokens and domains are produced only under the mode flag which the plain entry sets to false; the guards of the E, A, 3, V arms hold exactly on the look-ahead classes where the operator reading can continue and name membership is decided by a single predicate; whitespace is skipped before every segment. Language equality over all strings is not decided.",
     note=TRUST + "README.md is taken as the documented grammar.", ref="5/C05")
 CLAIMED["C06"] = dict(
-    technique="static analysis: who-may-construct / who-may-mutate rule over all struct literals and assignments; term equations for height; format-template coverage of the constructors; table agreement between Display spellings and the tokenizer's arm table",
+    technique="static analysis: who-may-construct / who-may-mutate rule over all struct literals and assignments; term equations for height; partial evaluation of the constructors and Display impls per operator variant (printed pieces vs template); agreement of the printed spellings with the tokenizer's first-decision table and the parser's constant table",
     text="Decides: HctlTreeNode literals occur only in the four constructors and no code assigns to its fields; height is 0 / child+1 / max(left,right)+1; each constructor's text is one pair of parentheses around every structural component exactly once and in order, the domain segment depends only on the presence of a domain, node_type stores exactly the arguments; every operator variant's Display text is tokenised back to the same variant, atoms print in the shapes the tokenizer reads. Round-trip equality over all trees is not decided.",
     note=TRUST, ref="5/C06")
 CLAIMED["C07"] = dict(
-    technique="static analysis: variant-set agreement of all sites branching on the hybrid operator; dominance of uses by scope checks (path conditions); argument-flow rules for the recursive calls (depth naming, sibling isolation by by-value parameters); must-pass-through of validation in every string entry point",
+    technique="static analysis: online partial evaluation of validate_and_rename_recursive for every node shape and comparison of the returned value (including the exits taken by `?`) with the specification terms; effect / accumulator equations for the variable collector; must-pass-through of validation and of the support check in every string entry point",
     text="Decides: scope extension, re-quantification check and variable collection all classify {bind, exists, forall} vs {jump} identically; a variable is renamed only through the scope map (absent -> Err), a re-quantified variable and an unbound jump target give Err, a proposition is accepted iff it names a network variable; the binding inserted for a quantifier is the parent's name plus exactly one character and reaches exactly its child, siblings see the parent's scope unchanged (by-value parameters, or paired removes), no other state is consulted; nodes are rebuilt through the constructors; every string entry point and the CLI evaluate only validated trees after the variable-support check. Alpha-equivalence and idempotence are not decided.",
     note=TRUST, ref="5/C07")
 CLAIMED["C08"] = dict(
-    technique="static analysis: sibling comparison of the short and long operator arms; table agreement with README.md (long names, constants); structural rules for whitespace and parenthesised groups; name-only indexing of symbolic copies; must-pass-through of canonical renaming",
+    technique="static analysis: the tokenizer's first-decision table evaluated for short and long operator spellings (same variant, same domain permission, README names), whitespace prefixes and groups; the parser's constant table vs README.md; name-only indexing of symbolic copies; the C07 renaming equations",
     text="Decides: each hybrid operator has one short and one long arm building the same variant with the same domain permission (long names = README list); the constant spellings are exactly the README's; whitespace yields no token and a parenthesised group adds no node; evaluation sees only canonical names and selects the symbolic copy by the name's length; occurrences and binders are renamed through the same scope entry. Equality of results over all rewrites is not decided.",
     note=TRUST + "README.md lists the documented spellings.", ref="5/C08")
 
 CLAIMED["C14"] = dict(
-    technique="static analysis: panic-site inventory over the call graph of resolved callees from the 17 string entry points; automatic dominance guards on path conditions; reviewed discharge table whose prerequisites (validator placement, cache protocol, restrict guard, mode flags) are re-verified on every run",
+    technique="static analysis: panic-site inventory over the call graph of resolved callees from the 17 string entry points; automatic discharge on normalised path conditions (dominating tests, values known by construction, symbolic lengths, token-class reasoning with unit propagation, per-shape partial evaluation, call-site contexts of private helpers); reviewed discharge table keyed by the origin of the operand, whose prerequisites are re-verified on every run; escape analysis for validator placement",
     text="Decides: no panic-capable construct (unwrap/expect, unreachable!/panic!, indexing/slicing, usize subtraction, known panicking library calls) reachable from a string entry point is left without a dominating local guard or a reviewed discharge whose prerequisites hold on the current tree; parse_and_validate[_extended] push a tree only after parser, preprocessing, the variable-support check for that tree and (extended) the context validation, and every string entry point evaluates only such trees on the validated graph; the listed error conditions are produced as Err values on their own paths. The 'error exactly when' half over all strings, and panics inside the libraries on validated arguments, are not decided.",
     note=TRUST + "Reviewed exceptions are listed with their reasons in tables/panic_discharge.json.", ref="5/C14")
 
@@ -77,15 +77,15 @@ CLAIMED["C15"] = dict(
     text="Decides: every sanitising entry point returns exactly map(sanitize_colored_vertices(graph, .)) over the results of its dirty sibling run with the same arguments (one-to-one, in order, no raw result escapes, nothing else is done); each sanitize_* function is a transfer of the BDD from the graph's context into that graph's canonical context, wrapped with the same canonical context; the symbolic copy index depends on the variable name only and every network variable gets the same number of copies. Equality of the sets and independence of the number of spare variable sets are not decided (they rest on C03 and L7).",
     note=TRUST, ref="5/C15")
 CLAIMED["C16"] = dict(
-    technique="static analysis: writer/reader table agreement (entry-name template vs. extension filter and suffix stripping, serialiser vs. parser, fixed entry names), label/index provenance in analyse_formulae, who-may-reorder rule",
+    technique="static analysis: effect trace of the zip writer (ordered operations, loops included) compared with the expected archive layout; writer / reader agreement of entry suffix, serialiser and parser; evaluation of the reader's extension filter for concrete extensions; provenance of label index and evaluated tree in analyse_formulae",
     text="Decides: results are written as `<label>.bdd` with write_as_string and read back from exactly the `.bdd` entries with the suffix stripped once, Bdd::from_string, the caller's context, keyed by the recovered label; model.aeon and formulae.txt are written once each after the results, formulae one per line in the given order; analyse_formulae archives result i under `formula-<i>` with i the enumerate counter of the evaluation loop over the trees in input order, nothing reorders the lists, and the archived formula list is the input list. The I/O round trip itself (zip, BDD text format) is assumed (L8).",
     note=TRUST, ref="5/C16")
 CLAIMED["C17"] = dict(
-    technique="static analysis: stage-by-stage provenance comparison of analyse_formulae with the library pipeline; Boolean equivalence of the loader's keep-condition; table agreement of print options (clap list, match in main, README); unwrap-on-fallible-result rule",
+    technique="static analysis: specification patterns over the normalised terms at the eval_node call of analyse_formulae (tree, graph, steady states, context trace); filtered-collection normal form and Boolean equivalence of the loader's keep-condition; table agreement of print options (clap list, match in main, README); unwrap-on-fallible-result rule on normalised path conditions",
     text="Decides: analyse_formulae selects the parser flavour by the presence of the context archive, validates every tree, sizes the graph by the maximum number of quantifier variables, builds one context from all trees, validates every tree against the sets loaded from the archive with the graph's symbolic context and installs the validated maps, and evaluates every tree in file order on that graph with its steady states; load_formulae keeps trim(line) iff it is non-empty and not a comment, in order; the four print options agree across clap, main and README; no fallible I/O / parse / validation result is unwrapped without an is_err test (reviewed exceptions listed); the printed and archived values are the set eval_node returned. Equality of the printed numbers with the library's is not decided.",
     note=TRUST, ref="5/C17")
 CLAIMED["C19"] = dict(
-    technique="static analysis: typestate ('flattened') argument on the value-numbering terms of the converter: variant coverage of flatten_fn_update, no raw argument embedded by explode_function, Shannon-expansion shape, injective naming templates, variable coverage",
+    technique="static analysis: partial evaluation of flatten_fn_update per FnUpdate variant and pattern specifications for explode_function / flatten_update_function on normalised terms (no raw argument embedded, Shannon-expansion shape, injective naming templates by printed pieces, variable coverage)",
     text="Decides: flatten_fn_update has exactly one arm per FnUpdate variant rebuilding from flattened children; explode_function embeds its first argument only through flatten_fn_update (each argument flattened exactly once, callers pass raw arguments), builds (r => E1) & (!r => E0) over the remaining arguments with the prefix extended by exactly '1' / '0', and its base case is the zero-arity parameter named by the accumulated prefix; prefixes are `<name>_`; every variable with a regulator is converted, the implicit case ranges over all regulators as variables, variables without regulators are skipped. Equality of the function families as truth tables is not decided.",
     note=TRUST + "FnUpdate's connective constructors and to_bnet are assumed to do what their names say.", ref="5/C19")
 CLAIMED["C20"] = dict(
